@@ -15,6 +15,13 @@ const ALPHABET: &[&str] = &[
     "字",
 ];
 const SUB_ALPHABET: &[&str] = &["'", "{", "}", "#", "-", "r", "1", ".", "e", " ", "\n", "a"];
+/// characters on which Rust's Unicode-aware `char` predicates differ from their ASCII versions
+/// (white space, digits, numerics, case), together with the ASCII symbols that give them context:
+/// a scanner that classifies with one predicate and counts with another shows up here
+const UNICODE_CLASSES: &[&str] = &[
+    "\u{a0}", "\u{2003}", "\u{3000}", "\u{2028}", "\u{85}", "\u{b}", "\u{c}", "\u{1680}", "٣", "１", "Ⅷ", "²", "ǅ",
+    "_", "a", "1", " ", "\n", ".", "'", "#", "-", "e", "x",
+];
 const PREFIXES: &[&str] = &["", "'{a:", "r#'", "#-", "x.", " #-", "'{", " '"];
 const EXTRA_CHARS: &[&str] = &[
     ":", "<", "^", ">", "=", "+", "*", "/", "%", "(", ")", "[", "]", "|", ",", ";", "@", "?", "!", "u", "x", "b",
@@ -401,12 +408,19 @@ fn main() {
         }
     }
     enumerate(SUB_ALPHABET, sub_len, "", &mut |s| cx.push(s));
+    for len in 0..=(if args.thorough() { 4 } else { 3 }) {
+        enumerate(UNICODE_CLASSES, len, "", &mut |s| cx.push(s));
+    }
+    for p in ["'", "#-", "0", "a"] {
+        enumerate(UNICODE_CLASSES, 2, p, &mut |s| cx.push(s));
+    }
     cx.flush();
     cx.rep.exhaustive = true;
     cx.rep.extra.insert(
         "exhaustive_space".into(),
         json!({"alphabet": ALPHABET, "max_len": max_len, "prefixes": PREFIXES, "max_len_after_prefix": max_len_prefixed,
-               "sub_alphabet": SUB_ALPHABET, "sub_len": sub_len}),
+               "sub_alphabet": SUB_ALPHABET, "sub_len": sub_len,
+               "unicode_class_alphabet": UNICODE_CLASSES, "unicode_class_max_len": if args.thorough() { 4 } else { 3 }}),
     );
 
     // 2. repository sources (whole files and every line-prefix cut)
@@ -427,7 +441,7 @@ fn main() {
     // 3. seeded random strings mixing all symbols
     let mut rng = Rng::new(args.seed);
     let n_random = if args.thorough() { 60000 } else { 6000 };
-    let all: Vec<&str> = ALPHABET.iter().chain(EXTRA_CHARS.iter()).copied().collect();
+    let all: Vec<&str> = ALPHABET.iter().chain(EXTRA_CHARS.iter()).chain(UNICODE_CLASSES.iter()).copied().collect();
     for _ in 0..n_random {
         let cap = if rng.chance(1, 10) { 60 } else { 14 };
         let len = 1 + rng.below(cap);
